@@ -8,14 +8,15 @@
    INTERFACE (everything below is inside `Section Job`, parameters in this order)
      T                      type of numbers (vector coordinates, costs, constraint values)
      ltb zero               `v < 0.0` of the feasibility test is `ltb v zero`
-     round7 smul            `sign * np.round(cost, 7)` is `smul maximise (round7 cost)`
-                            (Run/C05Run.v gives the binary64 instance `fround7` / `fsmul`)
+     roundp smul            `sign * np.round(cost, decimals=features["precision"])` is `smul maximise (roundp precision cost)`
+                            (Run/C05Run.v gives the binary64 instance `froundp` / `fsmul`)
    Data
      dstate                 Empty | InProgress | Evaluated | Failed          (Individual.State)
-     ind                    one Individual: ivec icosts isigned istate ifeas
+     ind                    one Individual: ivec icosts isigned istate ifeas iprec
                             isigned = None            <-> costs_signed == []
                             isigned = Some (l, m)     <-> costs_signed == l + [m]   (m = `not feasible`)
                             ifeas = truthiness of features["feasible"] (initially 0.0 = false)
+                            iprec = features["precision"] (7 for every Individual artap creates)
      call                   one invocation of the user's objective: c_no (global call number =
                             number of earlier invocations), c_id (design), c_att (attempt 0..4 inside
                             its job), c_vec (the vector the objective was given)
@@ -43,7 +44,7 @@
      evaluate_history e st batches  repeated Algorithm.evaluate calls (the caller catches exceptions and goes on)
      evaluate_scalar e st x         Evaluator.evaluate_scalar(x) (what ScipyOpt / NLopt call)
      sweep e st vectors             SweepAlgorithm.run with generator.generate() = vectors
-     signed_costs signs costs feas  Individual.calc_signed_costs
+     signed_costs prec signs costs feas  Individual.calc_signed_costs
    Not modelled: time stamps, algorithm_id, printing, the surrogate wrapper (C19; the default
    wrapper passes the call through), exceptions raised by the constraint function or by
    data_store.sync_individual, an objective that mutates the individual it is given.
@@ -83,7 +84,7 @@ Section Job.
   Variable T : Type.
   Variable ltb : T -> T -> bool.
   Variable zero : T.
-  Variable round7 : T -> T.
+  Variable roundp : nat -> T -> T.
   Variable smul : bool -> T -> T.
 
   Record ind := {
@@ -91,7 +92,8 @@ Section Job.
     icosts : list T;
     isigned : option (list T * bool);
     istate : dstate;
-    ifeas : bool }.
+    ifeas : bool;
+    iprec : nat }.
 
   Record call := { c_no : nat; c_id : nat; c_att : nat; c_vec : list T }.
 
@@ -112,11 +114,11 @@ Section Job.
 
   (* Individual(vector): EMPTY, costs [], costs_signed [], features["feasible"] = 0.0 *)
   Definition fresh (v : list T) : ind :=
-    {| ivec := v; icosts := []; isigned := None; istate := Empty; ifeas := false |}.
+    {| ivec := v; icosts := []; isigned := None; istate := Empty; ifeas := false; iprec := 7 |}.
 
   (* failed_individual = Individual(individual.vector); failed_individual.state = FAILED *)
   Definition mk_failed (v : list T) : ind :=
-    {| ivec := v; icosts := []; isigned := None; istate := Failed; ifeas := false |}.
+    {| ivec := v; icosts := []; isigned := None; istate := Failed; ifeas := false; iprec := 7 |}.
 
   (* if len(constraints) > 0: features["feasible"] = all(v < 0.0 for v in constraints) *)
   Definition feasible_of (old : bool) (g : list T) : bool :=
@@ -125,9 +127,9 @@ Section Job.
     | _ => forallb (fun v => ltb v zero) g
     end.
 
-  (* list(map(lambda x, y: x * np.round(y, 7), signs, costs)) + [not features["feasible"]] *)
-  Definition signed_costs (signs : list bool) (costs : list T) (feas : bool) : list T * bool :=
-    (map2 (fun s c => smul s (round7 c)) signs costs, negb feas).
+  (* list(map(lambda x, y: x * np.round(y, decimals=precision), signs, costs)) + [not features["feasible"]] *)
+  Definition signed_costs (prec : nat) (signs : list bool) (costs : list T) (feas : bool) : list T * bool :=
+    (map2 (fun s c => smul s (roundp prec c)) signs costs, negb feas).
 
   Definition log_call (st : state) (c : call) : state :=
     {| s_heap := s_heap st; s_pop := s_pop st; s_failed := s_failed st; s_store := s_store st;
@@ -157,15 +159,16 @@ Section Job.
     match e_obj e c with
     | Ok costs =>
         let i' := {| ivec := ivec i; icosts := costs;
-                     isigned := Some (signed_costs (e_signs e) costs feas);
-                     istate := Evaluated; ifeas := feas |} in
+                     isigned := Some (signed_costs (iprec i) (e_signs e) costs feas);
+                     istate := Evaluated; ifeas := feas; iprec := iprec i |} in
         (i', add_store st1 id i', Some Done)
     | Transient =>
         let i' := {| ivec := e_reroll e c; icosts := icosts i; isigned := isigned i;
-                     istate := Empty; ifeas := false |} in
+                     istate := Empty; ifeas := false; iprec := iprec i |} in
         (i', add_failed st1 (mk_failed (ivec i)), None)
     | Fatal k =>
-        ({| ivec := ivec i; icosts := icosts i; isigned := isigned i; istate := InProgress; ifeas := feas |},
+        ({| ivec := ivec i; icosts := icosts i; isigned := isigned i; istate := InProgress; ifeas := feas;
+            iprec := iprec i |},
          st1, Some (RaisedFatal k))
     end.
 
